@@ -51,6 +51,6 @@ func padBytes(b []byte, size int) []byte {
 	if l > size {
 		panic("invalid byte size")
 	}
-	// append zeros to match the requested size
-	return append(b, make([]byte, size-l)...)
+	// prepend zeros to match the requested size, as big.Int.Bytes drops leading zero bytes
+	return append(make([]byte, size-l), b...)
 }
